@@ -422,3 +422,108 @@ func AddLateAugments(t *rapid.T, set *ymodel.Set, max int) int {
 	}
 	return added
 }
+
+var chainCounter int
+
+// AddAugmentChain adds two to four new modules that together hang a chain of three to six containers below a plain
+// top-level container or list of one module of the set: link i is the child of link i-1, every link is the body
+// of an augment of its own, consecutive links may belong to one module (then written in reverse order), and a
+// module imports the base module and the chain modules before it; or (to and fro) one new module and its
+// submodules take turns in any sequence. The modules' names are a permutation of a small
+// pool, so the order in which a processor meets them (by name, by load) has nothing to do with the order of the
+// chain. Every set with a chain is valid: each augment's target exists once the links before it are in place.
+func AddAugmentChain(t *rapid.T, set *ymodel.Set) map[string]int {
+	labels := map[string]int{}
+	type base struct {
+		m *ymodel.Module
+		n *ymodel.Node
+	}
+	var bases []base
+	for _, m := range set.Modules {
+		if m.IsSub {
+			continue
+		}
+		for _, n := range m.Nodes {
+			if n.Kind == ymodel.KContainer || n.Kind == ymodel.KList {
+				bases = append(bases, base{m, n})
+			}
+		}
+	}
+	if len(bases) == 0 {
+		return labels
+	}
+	b := bases[rapid.IntRange(0, len(bases)-1).Draw(t, "chain-base")]
+	chainCounter++
+	k := rapid.IntRange(3, 6).Draw(t, "chain-length")
+	link := func(i int) string { return fmt.Sprintf("link%d-%d", chainCounter, i) }
+	linkBody := func(i int) []*ymodel.Node {
+		return []*ymodel.Node{{Kind: ymodel.KContainer, Name: link(i), Body: ymodel.Body{Nodes: []*ymodel.Node{{Kind: ymodel.KLeaf, Name: link(i) + "l", Type: &ymodel.TypeRef{Name: "string"}}}}}}
+	}
+	if rapid.Bool().Draw(t, "chain-to-and-fro") {
+		// to and fro: one new module and one or two submodules of it take turns, in any sequence (they share a
+		// namespace, so each can name the others' links without importing anything but the base module)
+		tag := rapid.SampledFrom([]string{"ca", "cz"}).Draw(t, "chain-module-name")
+		mod := &ymodel.Module{Name: fmt.Sprintf("%s%d", tag, chainCounter), Prefix: "cx"}
+		mod.Namespace = "urn:" + mod.Name
+		mod.Imports = []ymodel.Import{{Module: b.m.Name, Prefix: "b0"}}
+		texts := []*ymodel.Module{mod}
+		for j := rapid.IntRange(1, 2).Draw(t, "chain-submodules"); j > 0; j-- {
+			sub := &ymodel.Module{Name: fmt.Sprintf("%s-part%d", mod.Name, j), IsSub: true, BelongsTo: mod.Name, Prefix: "cx"}
+			sub.Imports = []ymodel.Import{{Module: b.m.Name, Prefix: "b0"}}
+			mod.Includes = append(mod.Includes, sub.Name)
+			texts = append(texts, sub)
+		}
+		path := "/b0:" + b.n.Name
+		last := -1
+		for i := 0; i < k; i++ {
+			o := rapid.IntRange(0, len(texts)-1).Draw(t, "chain-link-owner")
+			if o == last && rapid.Bool().Draw(t, "chain-change-hands") {
+				o = (o + 1) % len(texts)
+			}
+			last = o
+			a := &ymodel.Augment{Path: path, Body: ymodel.Body{Nodes: linkBody(i)}}
+			if rapid.Bool().Draw(t, "chain-written-before") {
+				texts[o].Augments = append([]*ymodel.Augment{a}, texts[o].Augments...)
+			} else {
+				texts[o].Augments = append(texts[o].Augments, a)
+			}
+			path += "/cx:" + link(i)
+		}
+		set.Modules = append(set.Modules, texts...)
+		labels[fmt.Sprintf("augment-chain/to-and-fro/length-%d", k)]++
+		return labels
+	}
+	nm := rapid.IntRange(2, 4).Draw(t, "chain-modules")
+	names := rapid.Permutation([]string{"ca", "cb", "cc", "cd"}).Draw(t, "chain-module-names")[:nm]
+	// owners: non-decreasing module positions, every module at least once where the length allows
+	owner := make([]int, k)
+	for i := range owner {
+		owner[i] = i * nm / k
+		if i > 0 && owner[i] > owner[i-1] && rapid.IntRange(0, 2).Draw(t, "chain-stay") == 0 {
+			owner[i] = owner[i-1]
+		}
+	}
+	mods := make([]*ymodel.Module, nm)
+	for j := range mods {
+		mods[j] = &ymodel.Module{Name: fmt.Sprintf("%s%d", names[j], chainCounter), Prefix: names[j]}
+		mods[j].Namespace = "urn:" + mods[j].Name
+		mods[j].Imports = append(mods[j].Imports, ymodel.Import{Module: b.m.Name, Prefix: "b0"})
+		for i := 0; i < j; i++ {
+			mods[j].Imports = append(mods[j].Imports, ymodel.Import{Module: mods[i].Name, Prefix: names[i]})
+		}
+	}
+	for i := 0; i < k; i++ {
+		me := mods[owner[i]]
+		path := "/b0:" + b.n.Name
+		for j := 0; j < i; j++ {
+			path += "/" + names[owner[j]] + ":" + link(j)
+		}
+		a := &ymodel.Augment{Path: path}
+		a.Nodes = linkBody(i)
+		// a module's later link is written before its earlier one
+		me.Augments = append([]*ymodel.Augment{a}, me.Augments...)
+	}
+	set.Modules = append(set.Modules, mods...)
+	labels[fmt.Sprintf("augment-chain/length-%d", k)]++
+	return labels
+}
